@@ -27,7 +27,7 @@ def trackable_decl(tk, t):
     return False
 
 
-PURE_GETTERS = {"Length", "Size", "Capacity", "GetOffset", "GetLength", "GetMatch", "Count"}
+PURE_GETTERS = {"Length", "Size", "Capacity", "GetOffset", "GetLength", "GetMatch", "Count", "MaxIndex", "TypeWidth", "Index"}
 
 
 class Lin:
@@ -715,6 +715,13 @@ class Zone(dataflow.Client):
         return st
 
     def apply_axioms(self, st):
+        if self.contract.invariants:
+            # class invariants hold again after every call of another method of the object
+            n2t = self.name_terms()
+            for (a, b, c) in self.contract.invariants:
+                ta, tb = n2t(a), n2t(b)
+                if ta and tb and not st.le(ta, tb, c):
+                    st.add(ta, tb, c)
         if not self.contract.axioms:
             return
         name2term = self.name_terms()
